@@ -499,7 +499,33 @@ int main(int argc, char** argv) {
            d->warning[mjWARN_CONTACTFULL].number + d->warning[mjWARN_CNSTRFULL].number);
     return 0;
   }
-  long lo = atol(argv[2]), hi = atol(argv[3]), stride = atol(argv[4]), batch = atol(argv[5]);
+  // explicit range:  <xml> <lo> <hi> <stride> <batch> [nstep fresh_every crash_stride]
+  // automatic range: <xml> auto <shard> <nshards> <stride> [nstep fresh_every crash_stride]
+  //   measures N = maxuse_arena, grows top = N + pad until the last 64 sizes are fault-free, sweeps shard/nshards of [0, top)
+  bool autom = !strcmp(argv[2], "auto");
+  long lo = 0, hi = 0, stride = atol(argv[autom ? 5 : 4]), batch = autom ? 1024 : atol(argv[5]);
+  size_t N = 0;
+  if (autom) {
+    mjModel* mm = mj_copyModel(nullptr, m);
+    mjData* d = nullptr;
+    for (mjtSize na = 1 << 20; na <= (mjtSize)1 << 28; na *= 4) {
+      mm->narena = na;
+      d = mj_makeData(mm);
+      bool ok = true;
+      try { for (int i = 0; i < nstep + 1; i++) mj_step(mm, d); } catch (VgError&) { ok = false; mj_resetData(mm, d); }
+      if (ok && !d->warning[mjWARN_CONTACTFULL].number && !d->warning[mjWARN_CNSTRFULL].number &&
+          4 * d->maxuse_arena < (size_t)na) break;
+      mj_deleteData(d);
+      d = nullptr;
+    }
+    if (!d) { fprintf(stderr, "measure failed\n"); return 2; }
+    N = d->maxuse_arena;
+    mj_deleteData(d);
+    mj_deleteModel(mm);
+    hi = (long)N + (1 << 16);   // capacity; the real top is found below
+  } else {
+    lo = atol(argv[2]); hi = atol(argv[3]);
+  }
   Scn s;
   m->narena = (mjtSize)(3 * (size_t)hi + (1 << 16));   // ample but modest (a 14 MB arena makes ASan re-poisoning slow)
   s.mbig = m;
@@ -515,5 +541,32 @@ int main(int argc, char** argv) {
   s.fresh_every = argc > 7 ? atol(argv[7]) : 251;
   vgx_crash_stride = argc > 8 ? atol(argv[8]) : 1;
   install_signals();
+  if (autom) {
+    long top = (long)N + 256;
+    std::string want;
+    for (int i = 0; i < nstep; i++) want += i ? ",ok" : "ok";
+    long fe = s.fresh_every;
+    s.fresh_every = 0;
+    for (;; top += 1024) {
+      if (top > hi) { fprintf(stderr, "no fault-free top found below %ld\n", hi); return 2; }
+      VgxOut o;
+      o.f = fopen("/dev/null", "w");
+      bool allok = true;
+      for (long x = top - 64; x < top && allok; x++) {
+        point(x, o, &s);
+        allok = o.viol.empty() && o.hist.size() == 1 && o.hist.begin()->first == want;
+      }
+      fclose(o.f);
+      if (allok) break;
+    }
+    s.fresh_every = fe;
+    g_ref.clear();
+    long shard = atol(argv[3]), nshards = atol(argv[4]);
+    long npts = (top + stride - 1) / stride;
+    long a = npts * shard / nshards, b = npts * (shard + 1) / nshards;
+    lo = a * stride; hi = b * stride;
+    if (hi > top) hi = top;
+    printf("T %zu %ld %ld %ld\n", N, top, lo, hi);
+  }
   return vgx_run(lo, hi, stride, batch, point, &s);
 }
